@@ -25,3 +25,13 @@ Print Assumptions C16_masked_off_step_scores_nothing.
 Theorem C16_every_operation_yields_such_traces : forall g t, produced g t -> wft g t.
 Proof. exact produced_wft. Qed.
 Print Assumptions C16_every_operation_yields_such_traces.
+
+(* ---- non-vacuity: concrete non-trivial programs and traces meeting the hypotheses above (proofs/GFIWitness.v) ---- *)
+From Proofs Require Import GFIWitness.
+Example C16_hypotheses_met :
+  (let t := tr_of (g_masked_iterate_final ex_step) [VZ 2; VA [VB true; VB false; VB true]] in
+   wft (g_masked_iterate_final ex_step) t /\ length (t_choices t) = 3%nat) /\
+  (let t := tr_of (g_masked_iterate ex_step) [VZ 2; VA [VB true; VB false; VB true]] in
+   wft (g_masked_iterate ex_step) t /\ length (t_choices t) = 3%nat).
+Proof. exact (conj ex_masked_iterate_final_wft ex_masked_iterate_wft). Qed.
+Print Assumptions C16_hypotheses_met.
